@@ -97,7 +97,7 @@ type genProvider struct {
 	gen       int
 	watcher   confmap.WatcherFunc
 	shutdowns int
-	plan      []string // per generation: "ok", "badcfg", "failstart", "failstop"
+	plan      []string       // per generation: "ok", "badcfg", "failstart", "failstop"
 	side      map[string]int // Shutdown calls of the other registered providers, by scheme
 	logger    *zap.Logger    // the logger the collector hands to its configuration providers
 }
@@ -143,6 +143,13 @@ service:
   telemetry: {metrics: {level: "${aux:lvl}"}, logs: {level: error, output_paths: [/dev/null], error_output_paths: [/dev/null]}}
   pipelines: {traces: {receivers: [vv], exporters: [vv]}}%s
 `, recv, exp, extra)
+	if kind == "closefail" { // the value retrieved for this generation fails to close (a watch that cannot be torn down)
+		g := p.gen
+		return confmap.NewRetrievedFromYAML([]byte(y), confmap.WithRetrievedClose(func(context.Context) error {
+			ev("retrieved-close g%d fails", g)
+			return errors.New("cannot stop watching")
+		}))
+	}
 	return confmap.NewRetrievedFromYAML([]byte(y))
 }
 func (p *genProvider) Scheme() string { return "gen" }
@@ -292,8 +299,8 @@ func checkLog(res result, gp *genProvider) string {
 	if res.ignoredStop != "" {
 		return "Run did not return after " + res.ignoredStop + " although nothing else was left to do (it returned only after the harness's final Shutdown)"
 	}
-	live := map[string]bool{}   // started and not stopped: "kind gN"
-	created := map[int]bool{}   // generations with created components
+	live := map[string]bool{} // started and not stopped: "kind gN"
+	created := map[int]bool{} // generations with created components
 	stops := map[string]int{}
 	reachedRunning := false
 	for _, l := range evlog {
@@ -326,18 +333,21 @@ func checkLog(res result, gp *genProvider) string {
 	if res.runErr == "" && res.state != StateClosed {
 		return fmt.Sprintf("Run returned nil in state %v", res.state)
 	}
-	if res.runErr == "" && gp.shutdowns != 1 {
+	// "a run that reached Running and is stopped ends in Closed with ... the configuration providers each shut down exactly
+	// once": the run reached Running if its first generation came up, and it went through the stop path (and not out through a
+	// failed reload, which leaves Closing/Starting) if it ended in Closed - whether or not the stop path reported errors
+	stoppedRun := res.runErr == "" || (res.state == StateClosed && (len(gp.plan) == 0 || (gp.plan[0] != "failstart" && gp.plan[0] != "badcfg")))
+	if stoppedRun && gp.shutdowns != 1 {
 		return fmt.Sprintf("provider shut down %d times", gp.shutdowns)
 	}
 	for _, sch := range []string{"aux", "idle"} {
-		if res.runErr == "" && gp.side[sch] != 1 {
+		if stoppedRun && gp.side[sch] != 1 {
 			return fmt.Sprintf("provider %q (registered; %s) shut down %d times", sch,
 				map[string]string{"aux": "used through a ${aux:...} reference", "idle": "never used"}[sch], gp.side[sch])
 		}
 	}
 	return ""
 }
-
 
 type c20Case struct {
 	Hist    []string `json:"events"`
@@ -393,7 +403,8 @@ func TestVerif(t *testing.T) {
 	levels := ctx.ParamS("levels", "2.2")
 	alpha := []string{"cfg", "cfgerr", "hup", "term", "shutdown", "ctx", "async"}
 	// (the last plan - every generation's exporter is slow to start - runs with the histories made of reload-related events)
-	plans := [][]string{{"ok", "ok", "ok"}, {"ok", "failstart"}, {"ok", "badcfg"}, {"ok", "failstop", "ok"}, {"failstart"}, {"badcfg"}, {"slow", "slow", "slow"}}
+	plans := [][]string{{"ok", "ok", "ok"}, {"ok", "failstart"}, {"ok", "badcfg"}, {"ok", "failstop", "ok"}, {"failstart"}, {"badcfg"}, {"slow", "slow", "slow"},
+		{"closefail", "ok", "ok"}, {"ok", "closefail", "ok"}}
 	histsOf := func(minLen, maxLen int) [][]string {
 		var hists [][]string
 		var rec func(cur []string)
@@ -422,85 +433,97 @@ func TestVerif(t *testing.T) {
 	}()
 	bound := 0
 	for li, lv := range strings.Split(levels, "/") {
-	var maxHist int
-	if _, err := fmt.Sscanf(lv, "%d.%d", &maxHist, &bound); err != nil {
-		ctx.Infra("bad level %q", lv)
-		return
-	}
-	minLen := maxHist
-	if li == 0 {
-		minLen = 0
-	}
-	hists := histsOf(minLen, maxHist)
-	if li == 0 {
-		hists = append(hists, logHists...)
-	}
-	all := true
-	for pi, plan := range plans {
-		for _, h := range hists {
-			if len(h) > 0 && (h[0] == "log" || h[len(h)-1] == "log") && pi > 1 {
-				continue // the logging-provider histories: two generation plans (all ok; the second generation fails to start)
-			}
-			if plan[0] == "slow" {
-				reloadOnly := len(h) > 0
-				for _, e := range h {
-					reloadOnly = reloadOnly && (e == "cfg" || e == "cfgerr" || e == "hup")
+		var maxHist int
+		if _, err := fmt.Sscanf(lv, "%d.%d", &maxHist, &bound); err != nil {
+			ctx.Infra("bad level %q", lv)
+			return
+		}
+		minLen := maxHist
+		if li == 0 {
+			minLen = 0
+		}
+		hists := histsOf(minLen, maxHist)
+		if li == 0 {
+			hists = append(hists, logHists...)
+		}
+		all := true
+		for pi, plan := range plans {
+			for _, h := range hists {
+				if len(h) > 0 && (h[0] == "log" || h[len(h)-1] == "log") && pi > 1 {
+					continue // the logging-provider histories: two generation plans (all ok; the second generation fails to start)
 				}
-				if !reloadOnly {
+				if plan[0] == "closefail" || (len(plan) > 1 && plan[1] == "closefail") {
+					// the close-failure plans: histories with at most one reload-related event before the stop
+					reloads := 0
+					for _, e := range h {
+						if e == "cfg" || e == "cfgerr" || e == "hup" {
+							reloads++
+						}
+					}
+					if len(h) == 0 || reloads > 1 || (plan[0] != "closefail" && reloads == 0) {
+						continue
+					}
+				}
+				if plan[0] == "slow" {
+					reloadOnly := len(h) > 0
+					for _, e := range h {
+						reloadOnly = reloadOnly && (e == "cfg" || e == "cfgerr" || e == "hup")
+					}
+					if !reloadOnly {
+						continue
+					}
+				}
+				if only := os.Getenv("VERIF_C20_ONLY"); only != "" && only != fmt.Sprint(plan)+fmt.Sprint(h) { // debugging aid
 					continue
 				}
-			}
-			if only := os.Getenv("VERIF_C20_ONLY"); only != "" && only != fmt.Sprint(plan)+fmt.Sprint(h) { // debugging aid
-				continue
-			}
-			n++
-			if !ctx.Mine(n) {
-				continue
-			}
-			if ctx.Expired() {
-				ctx.R.States = ctx.R.Evals + nodes
-				ctx.Cap(fmt.Sprintf("time budget reached in level %s (events.bound); completed levels: %v", lv, done))
-				return
-			}
-			var res result
-			var gp *genProvider
-			plan, h := plan, h
-			ctx.Nontrivial(vr.Hash(fmt.Sprint(plan), fmt.Sprint(h)))
-			st := vs.Explore(vs.Opts{Bound: bound, Shards: 1, Expired: ctx.Expired}, c20body(h, plan, &res, &gp), func(s *vs.Sched, owned bool) bool {
-				sig, what := c20Verdict(&res, gp, s)
-				ctx.R.Evals++
-				if sig != "" {
-					ctx.Violate(sig, fmt.Sprintf("plan=%v events=%v: %s", plan, h, what), c20Case{h, plan, s.Choices()})
-					ctx.Outcome("violation")
-				} else {
-					ctx.R.Traces++
-					ctx.Outcome(fmt.Sprintf("state=%v,err=%v", res.state, res.runErr != ""))
+				n++
+				if !ctx.Mine(n) {
+					continue
 				}
-				if ctx.R.Evals%1009 == 3 {
-					ctx.Sample(map[string]any{"plan": plan, "events": h, "state": fmt.Sprint(res.state), "run_error": res.runErr, "log": strings.Join(evlog, "; ")})
+				if ctx.Expired() {
+					ctx.R.States = ctx.R.Evals + nodes
+					ctx.Cap(fmt.Sprintf("time budget reached in level %s (events.bound); completed levels: %v", lv, done))
+					return
 				}
-				if len(s.DaemonPanics) > 0 {
-					n, _ := ctx.R.Extra["env_hazards"].(int)
-					ctx.R.Extra["env_hazards"] = n + 1
+				var res result
+				var gp *genProvider
+				plan, h := plan, h
+				ctx.Nontrivial(vr.Hash(fmt.Sprint(plan), fmt.Sprint(h)))
+				st := vs.Explore(vs.Opts{Bound: bound, Shards: 1, Expired: ctx.Expired}, c20body(h, plan, &res, &gp), func(s *vs.Sched, owned bool) bool {
+					sig, what := c20Verdict(&res, gp, s)
+					ctx.R.Evals++
+					if sig != "" {
+						ctx.Violate(sig, fmt.Sprintf("plan=%v events=%v: %s", plan, h, what), c20Case{h, plan, s.Choices()})
+						ctx.Outcome("violation")
+					} else {
+						ctx.R.Traces++
+						ctx.Outcome(fmt.Sprintf("state=%v,err=%v", res.state, res.runErr != ""))
+					}
+					if ctx.R.Evals%1009 == 3 {
+						ctx.Sample(map[string]any{"plan": plan, "events": h, "state": fmt.Sprint(res.state), "run_error": res.runErr, "log": strings.Join(evlog, "; ")})
+					}
+					if len(s.DaemonPanics) > 0 {
+						n, _ := ctx.R.Extra["env_hazards"].(int)
+						ctx.R.Extra["env_hazards"] = n + 1
+					}
+					return sig == ""
+				})
+				for _, x := range st.Infra {
+					ctx.Infra("plan=%v events=%v: %s", plan, h, x)
 				}
-				return sig == ""
-			})
-			for _, x := range st.Infra {
-				ctx.Infra("plan=%v events=%v: %s", plan, h, x)
+				if st.Capped {
+					all = false
+					ctx.Cap(fmt.Sprintf("time budget reached in level %s", lv))
+				}
+				ctx.R.Trans += st.Steps
+				nodes += st.Nodes
 			}
-			if st.Capped {
-				all = false
-				ctx.Cap(fmt.Sprintf("time budget reached in level %s", lv))
-			}
-			ctx.R.Trans += st.Steps
-			nodes += st.Nodes
 		}
-	}
-	if !all {
-		break
-	}
-	completedLevels = li + 1
-	done = append(done, lv)
+		if !all {
+			break
+		}
+		completedLevels = li + 1
+		done = append(done, lv)
 	}
 	ctx.R.States = nodes
 }
